@@ -5,6 +5,8 @@ pub mod langs;
 pub mod egx;
 pub mod hist;
 pub mod mixed;
+pub mod analyses;
+pub mod fp;
 pub mod known;
 pub mod oracle;
 pub mod props;
